@@ -7,6 +7,7 @@ import numpy as np
 import scipy.signal
 
 from mc.engine import Clause, Res
+from mc import layouts as _layouts
 
 import neuropixel
 from ibldsp import voltage, fourier
@@ -422,5 +423,6 @@ CHECK = {
         Clause("car", "referencing: zero median/mean per group for all groupings", cases=car_cases, check=car_check, setup=_setup),
         Clause("groups", "kfilt / fk with collections = each group alone with the same settings", cases=group_cases, check=group_check, setup=_setup),
         Clause("agc", "gain control: data x gain = input", cases=agc_cases, check=agc_check, setup=_setup),
+        _layouts.make_clause(__import__("checks._layout_specs", fromlist=["x"]).c05()),
     ],
 }
